@@ -43,6 +43,13 @@ auto& update(const string_t& name, parameter_t::enum_t& param, string_t value)
 template <class tscalar, class tvalue>
 auto& update(const string_t& name, parameter_t::range_t<tscalar>& param, tvalue value_)
 {
+    if constexpr (std::is_integral_v<tscalar> && std::is_floating_point_v<tvalue>)
+    {
+        // NB: converting a non-finite or too large floating point value to an integer is undefined behaviour!
+        critical(!std::isfinite(value_) || value_ < -9223372036854775808.0 || value_ >= 9223372036854775808.0,
+                 "parameter (", name, "): out of domain scalar value, not an integer: ", value_);
+    }
+
     const auto value = static_cast<tscalar>(value_);
 
     critical(!::nano::isfinite(value) || !::check(param.m_mincomp, param.m_min, value) ||
@@ -57,6 +64,14 @@ auto& update(const string_t& name, parameter_t::range_t<tscalar>& param, tvalue 
 template <class tscalar, class tvalue1, class tvalue2>
 auto& update(const string_t& name, parameter_t::pair_range_t<tscalar>& param, tvalue1 value1_, tvalue2 value2_)
 {
+    if constexpr (std::is_integral_v<tscalar> && std::is_floating_point_v<tvalue1> && std::is_floating_point_v<tvalue2>)
+    {
+        // NB: converting a non-finite or too large floating point value to an integer is undefined behaviour!
+        critical(!std::isfinite(value1_) || value1_ < -9223372036854775808.0 || value1_ >= 9223372036854775808.0 ||
+                     !std::isfinite(value2_) || value2_ < -9223372036854775808.0 || value2_ >= 9223372036854775808.0,
+                 "parameter (", name, "): out of domain pair of scalar values, not integers: ", value1_, ",", value2_);
+    }
+
     const auto value1 = static_cast<tscalar>(value1_);
     const auto value2 = static_cast<tscalar>(value2_);
 
